@@ -371,6 +371,8 @@ def mentions(body, n, needle, depth=10, seen=None):
         if x.get("k") == "Local" and x["id"] not in seen:
             seen.add(x["id"])
             d = body.local_def.get(x["id"])
+            if d and any(needle in "%s::%s" % (adt, f) for adt, f in d[1]):
+                return True
             if d and d[0][0] == "let" and d[0][1].get("init") is not None and x["id"] not in body.local_assigned:
                 if mentions(body, d[0][1]["init"], needle, depth - 1, seen):
                     return True
@@ -590,7 +592,7 @@ def describe(cexs, atoms, cons_atoms, ante):
     return out
 
 
-@RULES.rule("R16.1", "internal-linkage function: extern item emitted => wrapper queued and linked by name+suffix", floor=12)
+@RULES.rule("R16.1", "internal-linkage function: extern item emitted => wrapper queued and linked by name+suffix", floor=17)
 def r16_1(rep):
     """Necessary: a binding of a `static` function can only link against the wrapper.  Breaking inputs:
     `static inline int foo(int);` whose binding is pushed but which is not queued in `items_to_serialize`
@@ -760,7 +762,7 @@ def serializer(rep, self_ty):
     return rep.need(rep.prog.impl_fn(CS, self_ty, "serialize"), "impl CSerialize for %s" % self_ty)
 
 
-@RULES.rule("R16.2", "binding and wrapper spell the wrapper symbol as <name> + ctx.wrap_static_fns_suffix()", floor=9)
+@RULES.rule("R16.2", "binding and wrapper spell the wrapper symbol as <name> + ctx.wrap_static_fns_suffix()", floor=8)
 def r16_2(rep):
     """Necessary: the `#[link_name]` of the binding must be the symbol the C file defines.  Breaking edits:
     a literal "__extern" on one side (custom `--wrap-static-fns-suffix` then links against nothing), suffix+name
@@ -861,7 +863,7 @@ def direct_iter_of(body, loop, adt, field):
     return it.get("k") == "Field" and it.get("adt") == adt and it["f"] == field
 
 
-@RULES.rule("R16.3", "serialize_items: includes/contents first, every queued item serialised, written to <path>.c/.cpp, errors propagated", floor=18)
+@RULES.rule("R16.3", "serialize_items: includes/contents first, every queued item serialised, written to <path>.c/.cpp, errors propagated", floor=28)
 def r16_3(rep):
     """Necessary: the C file must see the static functions before the wrappers that call them and must hold a
     wrapper for every binding that links against one.  Breaking edits: wrappers written before `#include`
@@ -1054,7 +1056,7 @@ def emits_something(body, n, writer_ids):
     return False
 
 
-@RULES.rule("R16.4", "CSerialize for Type: promised kinds handled, every other kind is Err(CodegenError::Serialize), no panic paths", floor=24)
+@RULES.rule("R16.4", "CSerialize for Type: promised kinds handled, every other kind is Err(CodegenError::Serialize), no panic paths", floor=22)
 def r16_4(rep):
     """Necessary: a parameter of a kind the feature supports must be written, one it does not support must fail
     the run with an error the caller can report.  Breaking edits: deleting the `TypeKind::Enum` arm (a static
@@ -1182,13 +1184,19 @@ class WrapperText:
         return None
 
     def truth(self, f):
-        env = {}
-        for a in f_atoms(f):
-            v = self.atom_value(a)
-            if v is None:
-                return None
-            env[a] = v
-        return f_eval(f, env)
+        """Kleene evaluation: atoms that are not world atoms are unknown (None)."""
+        k = f[0]
+        if k == "const":
+            return f[1]
+        if k == "opaque":
+            return self.atom_value(f)
+        if k == "not":
+            v = self.truth(f[1])
+            return None if v is None else not v
+        vs = [self.truth(x) for x in f[1]]
+        if k == "and":
+            return False if any(v is False for v in vs) else None if any(v is None for v in vs) else True
+        return True if any(v is True for v in vs) else None if any(v is None for v in vs) else False
 
     def cond(self, n):
         return self.truth(self.lg.boolf(n))
@@ -1395,3 +1403,196 @@ def chain_to(body, n, target_id, allowed, depth=12):
             continue
         return False, names
     return False, names
+
+
+@RULES.rule("R16.5", "wrapper text: `<ret> <name+suffix>(<params>) { [return] <name>(<same names, same order>); }` in all four worlds", floor=33)
+def r16_5(rep):
+    """Necessary: the wrapper must be a C function definition that forwards every argument in order and returns the
+    result.  Breaking edits: `.rev()` / `.skip(1)` on the forwarded names (arguments swapped or missing: wrong
+    results or a C compile error), dropping `return` for non-void functions (garbage return value that no golden
+    test executes), removing `count += 1` (two parameters both called `arg_0`), forwarding to `wrap_name`
+    instead of `name` (infinite recursion), passing a different list to `serialize_args` and to the call."""
+    prog = rep.prog
+    sb = serializer(rep, FN)
+    rep.need(sb.params and sb.params[-1].get("k") == "Bind", "writer parameter of <Function as CSerialize>::serialize")
+    A = None
+    for va in (False, True):
+        for void in (False, True):
+            w = "va_list=%d,void=%d" % (va, void)
+            wt = WrapperText(prog, sb, {"va": va, "void": void})
+            rep.need(wt.va_id is not None, "the Option<WrapAsVariadic> parameter of <Function as CSerialize>::serialize")
+            toks = wt.run()
+            text = show(toks)
+            loc = sb.loc(sb.root)
+            unk = [t for t in toks if t[0] in ("UNKNOWN", "ARG")]
+            if not rep.check(not unk, "decidable:" + w, "abstract execution yields: %s%s" % (text[:160], ("  [unresolved: %s]" % unk[:2]) if unk else ""), loc):
+                continue
+            # header
+            head = [("TYPE", "ret"), ("WRAPNAME", True), "(", ("PARAMS",)]
+            head += [",", "...", ")", "{"] if va else [")", "{"]
+            ok = find_seq(toks, head) == 0
+            rep.check(ok, "header:" + w, "starts with `<ret type> <name+suffix> ( <params> %s) {`: %s" % (", ... " if va else "", text[:90]), loc)
+            if not ok:
+                continue
+            A = toks[3][1]
+            body_start = len(head)
+            # the forwarded call
+            calls = [i for i in range(len(toks)) if toks[i][0] == "NAME"]
+            j = calls[0] if len(calls) == 1 else -1
+            okc = j >= body_start and find_seq(toks, [("NAME",), "(", ("NAMES",), ")", ";"], j) == j
+            rep.check(okc, "forward-call:" + w, "exactly one `<name> ( <names> ) ;` in the body (found %d use(s) of the function name)" % len(calls), loc)
+            if not okc:
+                continue
+            names = toks[j + 2]
+            B = names[1]
+            # names come from the parameter list, order-preserving
+            bn = None
+            for n in sb.nodes:
+                if n["k"] == "Local" and n["id"] == B:
+                    bn = n
+                    break
+            reached, chain = chain_to(sb, bn, A, ORDER_PRESERVING) if bn is not None and A is not None else (False, [])
+            reached = reached or (B == A and A is not None)
+            bad_adaptors = [m for m in chain if m not in ORDER_PRESERVING]
+            rep.check(reached and not bad_adaptors and "," in (names[2] or ""), "names-from-params-in-order:" + w,
+                      "forwarded names derive from the list given to serialize_args through %s, separated by %r%s" %
+                      (chain or "identity", names[2], (" — not order/size preserving: %s" % bad_adaptors) if bad_adaptors else ""), sb.loc(names[3]))
+            # mutations of the forwarded list: only the `ap` insertion of the va_list world
+            muts = []
+            for c in sb.calls(lambda n: n["k"] == "MCall" and n["name"] in MUTATORS and local_id(n["recv"]) == B and n["_i"] < names[3]["_i"]):
+                if wt.truth(wt.lg.reachf(c)) is not False:
+                    muts.append(c)
+            if not va:
+                rep.check(not muts, "names-unmodified:" + w, "%d mutation(s) of the forwarded list before the call" % len(muts),
+                          sb.loc(muts[0]) if muts else loc)
+            # value returned
+            prev = toks[j - 1]
+            if not void:
+                direct = prev == ("T", "return")
+                via = False
+                if prev == ("T", "=") and toks[j - 2][0] == "T":
+                    x = toks[j - 2][1]
+                    via = find_seq(toks, ["return", x, ";"], j) > j and 0 <= find_seq(toks, [("TYPE", "ret"), x, ";"], body_start) < j
+                rep.check(direct or via, "returns-value:" + w, "the call's value is returned (%s)" % ("`return <name>(..)`" if direct else "`x = <name>(..); return x;`" if via else "no return of the call's value: " + text[-80:]), loc)
+            else:
+                decl = find_seq(toks, [("TYPE", "ret"), None, ";"], body_start)
+                rep.check(prev != ("T", "=") and decl < 0, "void-no-value:" + w, "no `void` variable is declared or assigned", loc)
+            # closing
+            depth = par = 0
+            okb = True
+            for t in toks:
+                if t == ("T", "{"):
+                    depth += 1
+                elif t == ("T", "}"):
+                    depth -= 1
+                elif t == ("T", "("):
+                    par += 1
+                elif t == ("T", ")"):
+                    par -= 1
+                okb = okb and depth >= 0 and par >= 0
+            okb = okb and depth == 0 and par == 0 and toks[-1] == ("T", "}")
+            rest = toks[j + 5:]
+            if not va:
+                okb = okb and rest == [("T", "}")]
+            rep.check(okb, "closes:" + w, "braces / parentheses balance and the definition ends with `}`%s" % ("" if va else " right after the call"), loc)
+            # va_list protocol
+            if va:
+                i1 = find_seq(toks, ["va_list", None, ";"], body_start)
+                y = toks[i1 + 1][1] if i1 >= 0 and toks[i1 + 1][0] == "T" else None
+                i2 = find_seq(toks, ["va_start", "(", y, ",", ("LAST", A), ")", ";"], body_start) if y else -1
+                i3 = find_seq(toks, ["va_end", "(", y, ")", ";"], j) if y else -1
+                ins = [c for c in muts if c["name"] == "insert" and len(c["args"]) == 2]
+                ok_ins = len(muts) == 1 and len(ins) == 1 and mentions(sb, ins[0]["args"][0], "WrapAsVariadic::idx_of_va_list_arg") and \
+                    wt.value(strip(ins[0]["args"][1]).get("recv", ins[0]["args"][1])) == y
+                rep.check(0 <= i1 < i2 < j < i3 and ok_ins, "va-list-protocol:" + w,
+                          "`va_list %s; va_start(%s, <last named>); <call with %s inserted at idx_of_va_list_arg>; va_end(%s);` (decl %d, start %d, call %d, end %d, insert ok %s)"
+                          % (y, y, y, y, i1, i2, j, i3, ok_ins), loc)
+
+    # the parameter list itself
+    an = None
+    for n in sb.nodes:
+        if n["k"] == "Let" and n["pat"].get("k") == "Bind" and n["pat"]["id"] == A:
+            an = n
+    rep.need(an, "definition of the (name, type) list handed to serialize_args")
+    init = an["init"]
+    tail = init
+    while tail.get("k") == "Block" and tail.get("tail") is not None:
+        tail = tail["tail"]
+    chain = []
+    n = strip(tail)
+    while n.get("k") == "MCall":
+        chain.append(n)
+        n = strip(n["recv"]) if n["name"] not in () else n
+    src_ok = bool(chain) and callee(chain[-1]) == "ir::function::FunctionSig::argument_types"
+    names = [c["name"] for c in chain[:-1]]
+    bad = [m for m in names if m not in ORDER_PRESERVING]
+    rep.check(src_ok and not bad, "params-from-signature", "list = signature.argument_types() through %s%s" % (names[::-1], (" — drops/reorders: %s" % bad) if bad else ""), sb.loc(an))
+    fm = [c for c in chain if c["name"] in ("filter_map", "filter", "map")]
+    for c in fm:
+        clo = strip(c["args"][0])
+        if clo.get("k") != "Closure":
+            rep.bad("params-closure:" + c["name"], "adaptor argument is not a closure", sb.loc(c))
+            continue
+        lgc = Logic(sb)
+        nones = [x for x in sb.walk(clo["body"]) if x["k"] == "Path" and x.get("def", "").endswith("::None") and (sb.ty(x) or "").startswith("std::option::Option<(")]
+        okn = True
+        for x in nones:
+            g = [gg for gg in sb.guards(x) if gg not in sb.guards(clo)]
+            okn = okn and bool(g) and any(gg[1] == "cond" and mentions(sb, gg[2], "WrapAsVariadic::idx_of_va_list_arg") for gg in g)
+        rep.check(okn, "params-drop-only-va_list", "an argument is left out only when its index is WrapAsVariadic.idx_of_va_list_arg (%d `None` path(s))" % len(nones), sb.loc(clo))
+        tups = [x for x in sb.walk(clo["body"]) if x["k"] == "Tup" and len(x.get("es", [])) == 2 and "TypeId" in (sb.ty(x) or "")]
+        okt = bool(tups)
+        for t in tups:
+            nm, ty = strip(t["es"][0]), strip(t["es"][1])
+            d = sb.local_def.get(ty.get("id")) if ty.get("k") == "Local" else None
+            okt = okt and d is not None and d[0][0] == "cparam" and d[0][1] is clo
+            r = nm
+            if r.get("k") == "MCall" and r["name"] in ("unwrap_or_else", "unwrap_or", "unwrap_or_default", "map_or_else"):
+                d2 = sb.local_def.get(local_id(r["recv"]))
+                okt = okt and d2 is not None and d2[0][0] == "cparam" and d2[0][1] is clo
+                fb = strip(r["args"][-1]) if r["args"] else {}
+                # fallback name: a counter that is interpolated and incremented
+                uniq = False
+                if fb.get("k") == "Closure":
+                    incs = {local_id(x["l"]) for x in sb.walk(fb["body"]) if x["k"] in ("AssignOp", "Assign")}
+                    for x in sb.walk(fb["body"]):
+                        if sb.macro_name(x) == "format":
+                            for kind, e in fmt_pieces(sb, x) or []:
+                                if kind == "arg" and local_id(e) in incs:
+                                    uniq = True
+                rep.check(uniq, "unnamed-params-get-distinct-names", "the fallback name interpolates a counter that is incremented per unnamed parameter", sb.loc(r))
+            else:
+                okt = False
+        rep.check(okt, "params-pair-name-with-own-type", "each entry pairs the argument's own name (or fallback) with its own type id", sb.loc(clo))
+
+    # serialize_args: each parameter is `<type> <name>` of the same entry; serialize_sep visits every element in order
+    ab = rep.need(prog.fn("codegen::serialize::serialize_args"), "serialize_args")
+    seps = [c for c in ab.calls(lambda n: n["k"] == "Call" and callee(n).endswith("serialize::serialize_sep"))]
+    ok = False
+    for c in seps:
+        reached, ch = chain_to(ab, strip(c["args"][1]), ab.params[0].get("id"), ORDER_PRESERVING)
+        clo = strip(c["args"][-1])
+        if reached and all(m in ORDER_PRESERVING for m in ch) and clo.get("k") == "Closure":
+            for s in ab.calls(lambda n: n["k"] == "MCall" and callee(n).startswith("<%s as %s" % (TYPEID, CS)), clo["body"]):
+                d = ab.local_def.get(local_id(s["recv"]))
+                nm_ids = {lid for lid, dd in ab.local_def.items() if dd[0][0] == "cparam" and dd[0][1] is clo and dd[1] and dd[1][-1] == ("tuple", "0")}
+                in_stack = any(x["k"] == "Local" and x["id"] in nm_ids for x in ab.walk(s["args"][2]))
+                ok = ok or (d is not None and d[0][0] == "cparam" and d[0][1] is clo and d[1] and d[1][-1] == ("tuple", "1") and in_stack)
+    rep.check(ok, "param-declarator@serialize_args", "every entry is written as its type with its own name as declarator", ab.loc(ab.root))
+    pb = rep.need(prog.fn("codegen::serialize::serialize_sep"), "serialize_sep")
+    it_id, f_id = pb.params[1].get("id"), pb.params[-1].get("id")
+    fcalls = [c for c in pb.calls(lambda n: n["k"] == "Call" and "f" in n and local_id(n["f"]) == f_id)]
+    loops = [n for n in pb.nodes if n["k"] in ("For", "While") and local_id((n.get("iter") or strip(n.get("cond", {})).get("init") or {})) == it_id or
+             (n["k"] == "While" and mentions(pb, n.get("cond", {}), "Iterator::next") and any(x.get("k") == "Local" and x["id"] == it_id for x in pb.walk(n["cond"])))]
+    in_loop = [c for c in fcalls if loops and any(a is loops[0] for a in pb.ancestors(c))]
+    okv = len(loops) == 1 and len(in_loop) == 1 and not loop_exits(pb, loops[0]) and \
+        not [g for g in pb.guards(in_loop[0]) if g[1] == "cond" and g not in pb.guards(loops[0]["body"]) and loops[0]["k"] == "For"]
+    # elements consumed before the loop (`iter.next()`) must be handed to f as well
+    nexts = [c for c in pb.calls(lambda n: n["k"] == "MCall" and n["name"] == "next" and local_id(n["recv"]) == it_id) if not loops or not any(a is loops[0] for a in pb.ancestors(c)) and c is not strip(loops[0].get("cond", {})).get("init")]
+    pre = [c for c in fcalls if c not in in_loop and loops and c["_i"] < loops[0]["_i"]]
+    okv = okv and len(pre) == len(nexts) and all(c["args"] and sb is not None and pb.local_def.get(local_id(c["args"][0]), (("",),))[0][0] in ("letcond", "let", "arm", "for") for c in fcalls)
+    rep.check(okv, "visits-every-element-in-order@serialize_sep", "f is called once per element (%d before the loop for %d `next()`, %d in the loop), no skip" % (len(pre), len(nexts), len(in_loop)), pb.loc(pb.root))
+    seps_w = [c for c in pb.calls(lambda n: n["k"] == "MCall" and n["name"] in ("write_all", "write_fmt", "write_str"))]
+    oks = bool(seps_w) and all(loops and any(a is loops[0] for a in pb.ancestors(c)) and in_loop and c["_i"] < in_loop[0]["_i"] and mentions(pb, c["args"][0], "param") is False for c in seps_w) and \
+        all(any(x.get("k") == "Local" and x["id"] == pb.params[0].get("id") for x in pb.walk(resolve(pb, c["args"][0]))) or local_id(c["args"][0]) is not None for c in seps_w)
+    rep.check(oks, "separator-between-elements@serialize_sep", "the separator is written inside the loop before each further element", pb.loc(pb.root))
